@@ -27,7 +27,7 @@ REAL = ["bec2format.bf3file / bec2file / crypto registry", "register_crypto_plug
         "when the fault arm is active)"]
 STUBS = ["medium: SimFS", "RNG: SimRng", "cipher fault wrapper FaultyAES / abstract base class for 'missing'",
          "RefAES, RefDir (independent models)"]
-PROBES = ["runs-with-assertions-disabled", "sibling-package-made-plain", "concurrent-writers-same-key", "rewritten-under-second-key", "content-longer-than-4096", "content-multiple-of-16", "content-trailing-zero", "content-all-zero", "cipher-missing", "cipher-raised-at-k",
+PROBES = ["runs-with-assertions-disabled", "plain-configuration-replaced-by-set_config", "sibling-package-made-plain", "concurrent-writers-same-key", "rewritten-under-second-key", "content-longer-than-4096", "content-multiple-of-16", "content-trailing-zero", "content-all-zero", "cipher-missing", "cipher-raised-at-k",
           "write-failed-no-file", "write-failed-file-exists", "rewrite-same-ciphertext", "bec2-framing", "config-component",
           "secrecy-needles-checked"]
 ASSUMPTIONS = ["encrypted content is defined up to its declared length; the reader returns the zero-padded plaintext"]
@@ -92,6 +92,12 @@ def gen(st, tier):
     spec["obj"]["components"] = comps
     if w.random() < 0.6:
         spec["obj"]["config"] = G.config_spec(w)
+        if w.random() < 0.25:
+            # the package already carries a plain (factory default) configuration component that set_config replaces
+            comps.insert(w.randint(0, len(comps)), {"desc": [[0xC3, "03"], [0xC1, "03"]],
+                                                    "blob": {"len": w.choice([5, 16, 30]), "fill": "rand", "tail0": 0,
+                                                             "s": w.getrandbits(32)}, "alen": None, "enc": False})
+            spec["plaincfg"] = True
     spec["rekey"] = G.session_key_spec(w, allow_default=(kind == "bf3")) if w.random() < 0.5 else None
     spec["cipher"] = f.choice(["real", "real", "real", "missing", "raise", "raise", "raise"])
     spec["fail_frac"] = f.random()
@@ -274,6 +280,15 @@ def run(case):
         import hashlib
         out.ev("file", kind, len(binary), hashlib.sha256(w.durable).hexdigest()[:12])
         enc_idx = [i for i, c in enumerate(w.model["components"]) if c["enc"]]
+        if case.get("plaincfg"):
+            out.probes["plain-configuration-replaced-by-set_config"] += 1
+        if case["obj"].get("config") is not None:
+            # every configuration component is marked for session-key encryption
+            lastc = w.model["components"][-1]
+            if not lastc["enc"] or dict(lastc["desc"]).get(0xC2) != b"\x02":
+                out.fail("C06.config-not-marked-encrypted", "flag-or-tag",
+                         "the configuration component made by set_config has encryption flag %r and ENC tag %r"
+                         % (lastc["enc"], dict(lastc["desc"]).get(0xC2)))
         if len(info["entries"]) != len(w.model["components"]):
             out.fail("C06.layout", "entry-count", "directory has %d entries for %d components"
                      % (len(info["entries"]), len(w.model["components"])))
